@@ -107,6 +107,25 @@ def isNonDecreasing : List Nat → Bool
   | [_] => true
   | a :: b :: rest => a ≤ b && isNonDecreasing (b :: rest)
 
+/-- the identifier of a record element: `some none` = no prov:id, `none` = unreadable -/
+def readId (el : XNode) : Option (Option String) :=
+  match attrOf el provNsX "id" with
+  | some s => (resolveQName el.nsmap s).map some
+  | none => some none
+
+/-- one child of a record element of a type with formal sequence `formals`: (attribute URI, value) -/
+def childEntry (hints : List (String × FloatAtom)) (formals : List String) (c : XNode) : Option (String × AVal) :=
+  let isFormal := c.uri == provNsX && formals.contains c.loc
+  let isTime := isFormal && timeChildren.contains c.loc
+  (readChildValue hints (isFormal && !isTime) isTime c).map (fun v => (c.uri ++ c.loc, v))
+
+/-- the prov:type values an element stands for beyond its children: its subtype name, its xsi:type -/
+def extraTypes (sub : Option String) (el : XNode) : List (String × AVal) :=
+  (match sub with | some t => [(provNsX ++ "type", AVal.qn (provNsX ++ t))] | none => []) ++
+  (match attrOf el xsiNsX "type" with
+   | some ty => (match resolveQName el.nsmap ty with | some u => [(provNsX ++ "type", AVal.qn u)] | none => [])
+   | none => [])
+
 /-- one record element; `none` = not PROV-XML (unknown element, unreadable name, children out of schema order) -/
 def readRecord (hints : List (String × FloatAtom)) (el : XNode) : Option ARec :=
   if el.uri != provNsX then none else
@@ -115,25 +134,12 @@ def readRecord (hints : List (String × FloatAtom)) (el : XNode) : Option ARec :
   | some (_, kind, sub) =>
     let formals := (formalOrder.find? (fun f => f.1 == kind)).map (·.2) |>.getD []
     if !isNonDecreasing (el.children.map (childRank formals)) then none else
-    let id? : Option (Option String) := match attrOf el provNsX "id" with
-      | some s => (resolveQName el.nsmap s).map some
-      | none => some none
-    match id? with
+    match readId el with
     | none => none
     | some id =>
-      let attrs? := mapM? (fun (c : XNode) =>
-        let isFormal := c.uri == provNsX && formals.contains c.loc
-        let isTime := isFormal && timeChildren.contains c.loc
-        (readChildValue hints (isFormal && !isTime) isTime c).map (fun v => (c.uri ++ c.loc, v))) el.children
-      match attrs? with
+      match mapM? (childEntry hints formals) el.children with
       | none => none
-      | some attrs =>
-        let extra : List (String × AVal) :=
-          (match sub with | some t => [(provNsX ++ "type", AVal.qn (provNsX ++ t))] | none => []) ++
-          (match attrOf el xsiNsX "type" with
-           | some ty => (match resolveQName el.nsmap ty with | some u => [(provNsX ++ "type", AVal.qn u)] | none => [])
-           | none => [])
-        some ⟨kind, id, attrs ++ extra⟩
+      | some attrs => some ⟨kind, id, attrs ++ extraTypes sub el⟩
 
 /-- a PROV-XML document: ("" ↦ top-level records) and one entry per prov:bundleContent, keyed by its prov:id URI -/
 def readDocument (hints : List (String × FloatAtom)) (root : XNode) : Option (List (String × List ARec)) :=
